@@ -53,7 +53,7 @@ def handle (op : String) (args : List String) : String :=
         -- `implicit_exact_tree_explicit` (hyp, statement)
         let extra := fun (t : List DNode) =>
           let T := (validate X o t).tree
-          lawBit (dataSchemaB X && !o.noState && freshExplL t && placedL X X.top t && shapedL X.base t && decide (sheightL X.top ≤ walkFuel X t)
+          lawBit (dataSchemaB X && !o.noState && freshExplL t && placedL X X.top t && cShapedL X.base t && decide (sheightL X.top ≤ walkFuel X t)
             && !(o.present && t.isEmpty))
           ++ lawBit (beqL (obsL X.base T) (obsL X.base (rfcComplete X o t)))
           ++ lawBit (okBelowB X && freshExplL t && npFullL X.base t && !(o.present && t.isEmpty))
